@@ -164,6 +164,7 @@ PROPS = {
                         "int is 64 bits wide on the host (int(num) is the identity)"],
     },
     "C12": {
+        "wasm_probe": True,
         "lean": ["Seccomp.Proofs.C12"],
         # -n = number of fresh processes whose complete name→number maps are compared
         "streams": [{"stream": "tables", "profile": "all", "quick": 5, "thorough": 20, "thorough_seeds": 1, "corpus": "C12", "timeout": 900}],
